@@ -292,6 +292,26 @@ func GenNewTree(t *rapid.T, old Tree, o GenOpts) Tree {
 		case 5: // brand-new file
 			tr, _ = place(tr, Entry{Path: GenPath(t, "dst"), Kind: KFile, C: GenContent(t, "new", o)}, o)
 		case 6: // symlink add / retarget
+			var links []string
+			for _, e := range tr {
+				if e.Kind == KLink {
+					links = append(links, e.Path)
+				}
+			}
+			if len(links) > 0 && rapid.Bool().Draw(t, "retarget-existing-link") {
+				// an existing link gets another destination: an unrelated one, or another spelling of the same
+				// one (./d, d/, x/../d, doubled slash): a different string that lexical cleaning would equate
+				e := tr.Get(rapid.SampledFrom(links).Draw(t, "link"))
+				nd := GenDest(t)
+				if rapid.Bool().Draw(t, "respell") {
+					alt := rapid.SampledFrom([]string{"./" + e.Dest, e.Dest + "/", "x/../" + e.Dest, strings.Replace(e.Dest, "/", "//", 1), strings.TrimPrefix(e.Dest, "./"), strings.TrimSuffix(e.Dest, "/")}).Draw(t, "respelling")
+					if alt != "" && alt != e.Dest {
+						nd = alt
+					}
+				}
+				e.Dest = nd
+				continue
+			}
 			tr, _ = place(tr, Entry{Path: GenPath(t, "dst"), Kind: KLink, Dest: GenDest(t)}, o)
 		case 7: // empty dir
 			tr, _ = place(tr, Entry{Path: GenPath(t, "dst"), Kind: KDir}, o)
